@@ -26,5 +26,5 @@ def run(ctx):
     from . import c02
     c02.r21(ctx)
     from . import callsigs as _cs
-    _cs.general_rules(ctx, 'R7', ['writer.write', 'writer.write_simple', 'writer.write_multi', 'writer.partition_on_columns', 'writer.make_part_file', 'api.ParquetFile.write_row_groups', 'writer.write_common_metadata', 'writer.consolidate_categories'])
+    _cs.general_rules(ctx, 'R7', ['writer.write', 'writer.write_simple', 'writer.write_multi', 'writer.partition_on_columns', 'writer.make_part_file', 'api.ParquetFile.write_row_groups', 'writer.write_common_metadata', 'writer.consolidate_categories', 'api.ParquetFile._dtypes', 'api.ParquetFile._set_attrs', 'writer.write_column', 'writer.make_row_group'])
     ar.single_pass_data_rule(ctx, 'R7.5')
